@@ -6,6 +6,7 @@ import (
 	"database/sql"
 	"encoding/binary"
 	"fmt"
+	"os"
 	"path/filepath"
 	"sort"
 	"strings"
@@ -179,6 +180,7 @@ func TestVerifC06(t *testing.T) {
 
 	n := verifN(150)
 	const directed = 4
+	thorough := os.Getenv("VERIF_TIER") == "thorough"
 	for id := 0; id < n+directed; id++ {
 		if em.Skip(id) {
 			continue
@@ -559,6 +561,9 @@ func TestVerifC06(t *testing.T) {
 			addV2(1, 50, 53, 1)
 		default:
 			nv1, nv2 := 2+rng.Intn(5), 2+rng.Intn(5)
+			if thorough && id%3 == 0 { // deeper: larger populations, longer histories
+				nv1, nv2 = 4+rng.Intn(7), 4+rng.Intn(7)
+			}
 			for i := 0; i < nv1; i++ {
 				ws := uint64(40 + rng.Intn(12))
 				addV1(uint64(1+rng.Intn(30)), ws, ws+1+uint64(rng.Intn(4)), uint64(1+rng.Intn(3)), rng.Intn(4) != 0)
@@ -577,6 +582,9 @@ func TestVerifC06(t *testing.T) {
 				v1Revs[i] = rv
 			}
 			rounds := rng.Intn(5)
+			if thorough && id%3 == 0 {
+				rounds = 2 + rng.Intn(7)
+			}
 			for k := 0; k < rounds; k++ {
 				r1, r2 := readRows()
 				h := uint64(30 + rng.Intn(30))
